@@ -153,6 +153,21 @@ def feed(srv, line):
         ex.run_jobs()
 
 
+def set_logging(debug):
+    """logging configuration of the run: silent (everything disabled), or every library logger at DEBUG with a NullHandler
+    (so that code under `isEnabledFor(DEBUG)` / message formatting runs, without output)"""
+    import logging
+    root = logging.getLogger('lightstreamer-adapter')
+    if debug:
+        logging.disable(logging.NOTSET)
+        root.setLevel(logging.DEBUG)
+        root.handlers = [logging.NullHandler()]
+        root.propagate = False
+    else:
+        root.setLevel(logging.NOTSET)
+        logging.disable(logging.CRITICAL)
+
+
 def _attrs(o):
     try:
         return list(vars(o).values())
